@@ -494,10 +494,16 @@ func (c *Ctx) ImpliedAlts(f Fact) [][]Fact {
 			if definitelyNonNil(alts[i]) {
 				continue
 			}
-			if v := strip(alts[i].Val); v == nil || v.Op != "nil" {
+			v := strip(alts[i].Val)
+			if v == nil {
 				return nil
 			}
-			out = append(out, alts[i].Facts)
+			fs := append([]Fact{}, alts[i].Facts...)
+			if v.Op != "nil" {
+				// the helper hands on another value as its error: the result is nil exactly when that value is
+				fs = append(fs, Fact{Cond: &X{Op: "binop", Name: "==", Args: []*X{alts[i].Val, {Op: "nil"}}}, Val: true, If: f.If})
+			}
+			out = append(out, fs)
 		}
 		return out
 	}
